@@ -1,6 +1,9 @@
 """atheris (libFuzzer) driver for the byte-level half of C20.
 
-    python -m wnv.fuzz_c20 --seconds 60 --corpus DIR --findings DIR [--dict F] [--seed N]
+    python -m wnv.fuzz_c20 --runs 15000 --corpus DIR --findings DIR [--dict F] [--seed N]
+
+The campaign is bounded by a number of executions (deterministic for a given
+seed and tree); ``--seconds`` is only a safety cap.
 
 The target is ``wnv.checks.c20.check_bytes`` - the same oracle the harness
 replays.  A discrepancy does not stop the campaign: the smallest input per
@@ -19,7 +22,8 @@ from pathlib import Path
 
 def main() -> int:
     ap = argparse.ArgumentParser()
-    ap.add_argument('--seconds', type=int, default=60)
+    ap.add_argument('--runs', type=int, default=15000)
+    ap.add_argument('--seconds', type=int, default=180)
     ap.add_argument('--corpus', required=True)
     ap.add_argument('--findings', required=True)
     ap.add_argument('--dict')
@@ -56,7 +60,8 @@ def main() -> int:
                 slug = re.sub(r'[^A-Za-z0-9_.-]+', '_', d.kind)
                 (findings / f'{slug}.bin').write_bytes(data)
 
-    argv = [sys.argv[0], args.corpus, f'-max_total_time={args.seconds}', f'-seed={args.seed}',
+    argv = [sys.argv[0], args.corpus, f'-runs={args.runs}',
+            f'-max_total_time={args.seconds}', f'-seed={args.seed}',
             f'-max_len={args.max_len}', '-timeout=60', '-print_final_stats=1', '-verbosity=0']
     if args.dict:
         argv.append(f'-dict={args.dict}')
